@@ -49,13 +49,9 @@ def parseLib (s : String) : Option LibTab :=
 def mkLib (t : LibTab) (alt : Bool) : Lib where
   isSpace := genIsSpace
   lower := genLower
-  -- a2b_base64 and str.encode are the model's own (C20_B64); only the UTF-8 "replace" decoder is answered per case
-  decodeCred := B64.decodeCredWith (fun bs => match t.u.lookup bs with
-    | some r => r
-    | none => if alt then [97, 58, 98] else [0x110000])
-  sockDecode := fun k => match t.s.lookup k with
-    | some r => r
-    | none => if alt then [0x110000] else []
+  -- a2b_base64, str.encode and the UTF-8 "replace" decoder are all the model's own transcriptions (C20_B64)
+  decodeCred := B64.decodeCredStd
+  sockDecode := fun k => B64.utf8decBS (k.map (·.toNat))      -- transcribed (C20_B64)
   hashOk := fun a b => match t.h.lookup (a, b) with
     | some (some r) => r
     | some none => false
@@ -204,6 +200,14 @@ def stepLine (line : String) : String :=
   | ["b2a", h] =>
     match hexOr h with
     | some b => showBytes ((B64.b2a (b.map (·.toNat))).map UInt8.ofNat)
+    | none => "bad-op"
+  | ["decbs", h] =>
+    match hexOr h with
+    | some b => showCps (B64.utf8decBS (b.map (·.toNat)))
+    | none => "bad-op"
+  | ["dec", h] =>
+    match hexOr h with
+    | some b => showCps (B64.utf8decR (b.map (·.toNat)))
     | none => "bad-op"
   | ["enc", t] =>
     match parseCps t with
